@@ -116,6 +116,17 @@ package grpcgcp
 //@   ensures [C01.bind-unknown] !old(sc in gb.scRefs) ==> affUnchanged(gb)
 //@   ensures [C01.bind-frame] forall k string :: {k in gb.affinityMap} k != bindKey ==> (k in gb.affinityMap) == old(k in gb.affinityMap) && gb.affinityMap[k] == old(gb.affinityMap[k])
 //@   ensures [C08.home-untouched] fbUnchanged(gb)
+// The completion callback binds through the slot: reading the slot's connection and binding to it is one atomic step,
+// so the key lands on the channel the BIND call ran on whatever refresh swaps happen before or after.
+//@ pred inPool(gb *gcpBalancer, ref *subConnRef) := ref != nil && ref.subConn in gb.scRefs && gb.scRefs[ref.subConn] == ref
+//@ func (gb *gcpBalancer) bindSubConnRef
+//@   ensures [C01.bind-keeps] old(bindKey in gb.affinityMap) ==> gb.affinityMap[bindKey] == old(gb.affinityMap[bindKey])
+//@   ensures [C01.bind-lands] !old(bindKey in gb.affinityMap) && old(inPool(gb, ref)) ==> bindKey in gb.affinityMap && gb.affinityMap[bindKey] == old(ref.subConn) && home(gb, bindKey) == ref
+//@   ensures [C01.bind-unknown] !old(inPool(gb, ref)) ==> affUnchanged(gb)
+//@   ensures [C01.bind-frame] forall k string :: {k in gb.affinityMap} k != bindKey ==> (k in gb.affinityMap) == old(k in gb.affinityMap) && gb.affinityMap[k] == old(gb.affinityMap[k])
+//@   ensures [C08.home-untouched] fbUnchanged(gb)
+//@ func (gb *gcpBalancer) bindLocked
+//@   inline
 //@ func (gb *gcpBalancer) unbindSubConn
 //@   ensures [C01.unbind-removes] !(boundKey in gb.affinityMap)
 //@   ensures [C01.unbind-frame] forall k string :: {k in gb.affinityMap} k != boundKey ==> (k in gb.affinityMap) == old(k in gb.affinityMap) && gb.affinityMap[k] == old(gb.affinityMap[k])
@@ -290,7 +301,8 @@ package grpcgcp
 //@ func (p *gcpPicker) Pick$1
 //@   captures scRef != nil && p != nil && ctx != nil && len(p.scRefs) > 0 && (hasGCPCtx ==> gcpCtx != nil)
 //@   ensures [C02.done-delta] scRef.streamsCnt == wrap32s(old(scRef.streamsCnt) - 1) && othersKeepStreams(scRef)
-//@   callsite bindSubConn#1 asserts [C01.done-fail] info.Err == nil && cmd == pb.AffinityConfig_BIND && hasGCPCtx
+//@   callsite bindSubConnRef#1 asserts [C01.done-fail] info.Err == nil && cmd == pb.AffinityConfig_BIND && hasGCPCtx
+//@   callsite bindSubConnRef#1 asserts [C01.bind-to-call-slot] $arg2 == scRef
 //@   callsite unbindSubConn#1 asserts [C01.done-fail] info.Err == nil && cmd == pb.AffinityConfig_UNBIND
 //@ spec watermark(p *gcpPicker) := p.gb.cfg.GetChannelPool().GetMaxConcurrentStreamsLowWatermark()
 //@ func (p *gcpPicker) getLeastBusySubConnRef
@@ -305,7 +317,9 @@ package grpcgcp
 //@   loop 1 invariant minScRef != nil && minStreamsCnt == minScRef.streamsCnt && (exists j, x in p.scRefs :: x == minScRef)
 //@   loop 1 invariant forall j, x in p.scRefs :: j <= $i ==> minStreamsCnt <= x.streamsCnt
 //@ pred othersKeepStreams(r0 *subConnRef) := forall r *subConnRef :: {r.streamsCnt} old(isa(r)) && r != r0 ==> r.streamsCnt == old(r.streamsCnt)
-//@ callers [C01.only-completion-binds] bindSubConn: Pick$1
+//@ callers [C01.only-completion-binds] bindSubConnRef: Pick$1
+//@ callers [C01.only-completion-binds] bindSubConn:
+//@ callers [C01.only-completion-binds] bindLocked: bindSubConn bindSubConnRef
 //@ callers [C01.only-completion-unbinds] unbindSubConn: Pick$1
 //@ callers [C07.only-detector-refreshes] refresh: detectUnresponsive
 //@ callers [C03.growth-sites] newSubConn: getLeastBusySubConnRef getSubConnRoundRobin
